@@ -795,6 +795,11 @@ def gen_tree(rng: random.Random, profile: str) -> Dict[str, Any]:
     for d in dirs:
         if d:
             files.setdefault(f"{d}/__init__.py", rng.choice(["", "", "VERSION = 1\n"]))
+    # near twins: a shared function text with a pure helper in one file and an impure one in the other
+    if profile in ("base", "edges", "converge") and rng.random() < 0.25:
+        a, b = gen.near_twins(rng)
+        first, second = rng.choice([("vsm_twin_a.py", "vsm_twin_b.py"), ("vsm_twin_b.py", "vsm_twin_a.py")])
+        files[first], files[second] = a, b
     # identical twins: the realistic way one worker sees the same text twice
     if rng.random() < 0.25 and mods:
         imp, rel = rng.choice(mods)
